@@ -1,4 +1,6 @@
 """C16 -- template application edits exactly what the template names (independent graph-edit model)."""
+import collections
+import functools
 import itertools
 
 from ..core import Acc, Stage
@@ -341,16 +343,319 @@ def run_builtin(shard):
     return acc
 
 
+# ---------------------------------------------------------------------------------------------------------------
+# prepared reaction collections (chython.reactor.reactions / chython.reactor.retro) and multi-reactant Reactor vs the edit model
+# ---------------------------------------------------------------------------------------------------------------
+POOL_FWD = ['CC(=O)O', 'OC(=O)c1ccccc1', 'OC(=O)CC(=O)O', 'C[C@H](N)C(=O)O', 'OC=O',
+            'NCC', 'Nc1ccccc1', 'CNC', 'C1CCNCC1', 'CNc1ccccc1', 'NCCN', 'C1COCCN1', 'CNOC', 'N(c1ccccc1)c1ccccc1', 'CC(=O)NNC',
+            'Brc1ccccc1', 'Clc1ccncc1', 'Ic1ccc(C)cc1', 'Brc1ccc(Br)cc1', 'BrC=C', 'FS(=O)(=O)Oc1ccccc1', 'O=S(=O)(Oc1ccccc1)C(F)(F)F',
+            'OB(O)c1ccccc1', 'CC1(C)OB(OC1(C)C)c1ccccc1', 'OB(O)C=C', 'F[B-](F)(F)c1ccccc1', 'OB(O)C1CC1', 'OB(O)CC',
+            'C#CC', 'C#Cc1ccccc1', 'C#C[Si](C)(C)C', 'C#C',
+            'OCC', 'Oc1ccccc1', 'OC(C)C', 'OCc1ccccc1', 'C[C@H](O)CC',
+            'CS(=O)(=O)Cl', 'Cc1ccc(cc1)S(Cl)(=O)=O', 'CS(F)(=O)=O',
+            'CN=C=O', 'O=C=Nc1ccccc1', 'CN=C=S',
+            'CC=O', 'CC(C)=O', 'O=Cc1ccccc1', 'O=C1CCCCC1', 'C[C@H](C=O)CC',
+            'CC(=O)Cl', 'OB(O)C#CC', 'CCBr', 'ClCC', 'C1COCN1', 'C1COCNC1']
+POOL_RETRO = ['CC(=O)NCC', 'CC(=O)Nc1ccccc1', 'CC(=O)N(C)C', 'O=C(c1ccccc1)N1CCCCC1', 'c1ccccc1Nc1ccccc1', 'CN(C)c1ccccc1', 'c1ccc(cc1)N1CCOCC1', 'CCNc1ccncc1',
+              'COc1ccccc1', 'CC(C)Oc1ccccc1', 'CC(=O)OCC', 'CC(=O)Oc1ccccc1', 'CCOC(=O)c1ccccc1', 'C[C@H](CC)OC(C)=O',
+              'CC#Cc1ccccc1', 'c1ccccc1C#Cc1ccccc1', 'C=CC#CC', 'C[Si](C)(C)C#Cc1ccccc1',
+              'c1ccccc1-c1ccccc1', 'Cc1ccc(cc1)-c1ccncc1', 'C=Cc1ccccc1', 'CCc1ccccc1', 'c1ccccc1C1CC1', 'C=CC=C', 'CC(=O)N[C@@H](C)C(=O)NC', 'CC(=O)N=C(C)C', 'CC#CC(C)=O']
+
+
+def _plain_of(mols):
+    atoms, bonds = {}, {}
+    for m in mols:
+        a, b = plain(m)
+        atoms.update(a)
+        bonds.update(b)
+    return atoms, bonds
+
+
+def _union(mols):
+    u = mols[0].copy()
+    for m in mols[1:]:
+        u = u | m
+    return u
+
+
+def _build_plain(atoms, bonds):
+    from chython import MoleculeContainer
+    from chython.periodictable import Element
+    m = MoleculeContainer()
+    for n, (sym, iso, ch, rad) in sorted(atoms.items()):
+        m.add_atom(Element.from_symbol(sym)(isotope=iso, charge=ch, is_radical=rad), n)
+    for bd, o in bonds.items():
+        a, c = tuple(bd)
+        m.add_bond(a, c, o)
+    return m
+
+
+def _norm_str(atoms, bonds):
+    """canonical text of a plain graph after the documented aromatic-ring normalisation of reactor products"""
+    m = _build_plain(atoms, bonds)
+    try:
+        if any(o == 4 for o in bonds.values()):
+            m.kekule()
+        m.thiele()
+    except Exception:
+        pass
+    return format(m, 'h')
+
+
+def reactor_vs_model(rx, mols, acc, tag, desc, limit=60):
+    """one multi-reactant Reactor call, one_shot mode, reactants carrying disjoint numbers: every reported reaction is the edit model applied to one
+    combination of matches of one assignment of molecules to patterns, and every such combination is reported (as a set of canonical graphs)"""
+    k = len(rx._patterns)
+
+    def bad(what, **d):
+        acc.fail('%s :: %s' % (what, desc), case=tag, **d)
+        acc.outcomes['FAIL ' + what] += 1
+    try:
+        rs = list(itertools.islice(rx(*[m.copy() for m in mols]), limit + 1))
+    except Exception as e:
+        bad('reactor raised %s' % type(e).__name__)
+        return None
+    if len(rs) > limit:
+        acc.caps['reactions per call capped at %d' % limit] += 1
+        return None
+    pattern = functools.reduce(lambda a, b: a | b, rx._patterns)
+    repl = functools.reduce(lambda a, b: a | b, rx._products)
+    expected = {}
+    for chosen in itertools.permutations(range(len(mols)), k):
+        ch = [mols[i] for i in chosen]
+        ign = [mols[i] for i in range(len(mols)) if i not in chosen]
+        maps = [[dict(x) for x in p.get_mapping(m, automorphism_filter=rx._automorphism_filter, _cython=False)] for p, m in zip(rx._patterns, ch)]
+        if not all(maps):
+            continue
+        u = _union(ch)
+        for combo in itertools.product(*maps):
+            mapping = {}
+            for c in combo:
+                mapping.update(c)
+            ea, eb = model(u, pattern, repl, mapping)
+            ia, ib = _plain_of(ign)
+            ea = dict(ea)
+            ea.update(ia)
+            eb = dict(eb)
+            eb.update(ib)
+            old = set(plain(u)[0]) | set(ia)
+            expected.setdefault(_norm_str(ea, eb), (ea, eb, old, mapping))
+    got = {}
+    for r in rs:
+        nums = [n for mm in r.products for n in mm]
+        if len(nums) != len(set(nums)):
+            bad('duplicate atom numbers among the products of a reaction', got=str(r))
+            return None
+        pa, pb = _plain_of(r.products)
+        got.setdefault(_norm_str(pa, pb), (pa, pb, r))
+    acc.transitions += 1 + len(expected)
+    if set(got) != set(expected):
+        extra = sorted(set(got) - set(expected))[:3]
+        missing = sorted(set(expected) - set(got))[:3]
+        bad('reported reactions differ from the edit model applied to every combination of matches', extra=extra, missing=missing)
+        return None
+    for key, (pa, pb, r) in got.items():
+        ea, eb, old, mapping = expected[key]
+        # frame condition with numbers: atoms that existed before and survive keep their numbers and attributes; bonds between them as modelled
+        surv = set(ea) & old
+        if {n: pa.get(n) for n in surv} != {n: ea[n] for n in surv}:
+            d = sorted(n for n in surv if pa.get(n) != ea[n])[:4]
+            bad('surviving atoms changed number or attributes', atoms=d, got=str(r))
+            return None
+        arom = any(o == 4 for o in eb.values()) or any(o == 4 for o in pb.values())
+        if not arom:
+            eb_old = {b: o for b, o in eb.items() if b <= surv}
+            pb_old = {b: o for b, o in pb.items() if b <= surv}
+            if eb_old != pb_old:
+                bad('bonds between surviving atoms differ from the edit model', got=str(r))
+                return None
+        if any(mm.check_valence() for mm in r.products) and not any(m.check_valence() for m in mols):
+            bad('product with a valence error', got=str(r))
+            return None
+        u_all = _union(list(mols))
+        for mm in r.products:
+            rr = stereo_untouched(u_all, mm, set(mapping.values()))
+            if rr:
+                bad(rr, got=str(r))
+                return None
+    return set(got)
+
+
+def _disjoint(smis, offset=0):
+    from chython import smiles
+    out = []
+    base = offset
+    for s in smis:
+        m = smiles(s)
+        nums = list(m)
+        m.remap({n: n + 5000 for n in nums})
+        m.remap({n + 5000: base + i + 1 for i, n in enumerate(nums)})
+        base += len(nums) + 3     # gaps between molecules
+        out.append(m)
+    return out
+
+
+def run_prepared(shard):
+    from chython import smiles
+    kind, name, tier = shard
+    acc = Acc()
+    if kind == 'fwd':
+        from chython.reactor import reactions
+        pr = getattr(reactions, name)
+        reactors = list(pr.rxn_os)
+        pool = POOL_FWD
+    elif kind == 'retro':
+        from chython.reactor import retro
+        pr = getattr(retro, name)
+        reactors = list(pr.rxn)
+        pool = POOL_RETRO
+    fired = collections.Counter()
+    for ri, rx in enumerate(reactors):
+        k = len(rx._patterns)
+        desc = '%s.%s[%d]' % ('reactions' if kind == 'fwd' else 'retro', name, ri)
+        # which pool molecules can match which pattern at all (pre-filter; pairs in which both patterns match are all enumerated)
+        cand = []
+        for p in rx._patterns:
+            cs = []
+            for s in pool:
+                try:
+                    m = smiles(s)
+                except Exception:
+                    continue
+                if next(p.get_mapping(m, _cython=False), None) is not None:
+                    cs.append(s)
+            cand.append(cs)
+        tuples = [t for t in itertools.product(*cand)]
+        if tier == 'quick' and len(tuples) > 24:
+            tuples = tuples[::max(1, len(tuples) // 24)]
+        for t in tuples:
+            acc.states += 1
+            tag = '%s | %s' % (desc, ' + '.join(t))
+            mols = _disjoint(t)
+            ref = reactor_vs_model(rx, mols, acc, tag + ' | disjoint numbers', desc)
+            if ref is None:
+                continue
+            fired[ri] += bool(ref)
+            # colliding numbers (every molecule numbered from 1), reversed reactant order, a spectator: same set of reactions, unique numbers
+            for variant in ('colliding numbers', 'reversed order', 'with spectator'):
+                acc.states += 1
+                if variant == 'colliding numbers':
+                    ms = [smiles(s) for s in t]
+                elif variant == 'reversed order':
+                    ms = [smiles(s) for s in t][::-1]
+                else:
+                    ms = [smiles(s) for s in t] + [smiles('CCCCCC')]
+                try:
+                    rs = list(itertools.islice(rx(*ms), 61))
+                except Exception as e:
+                    acc.fail('reactor raised %s :: %s' % (type(e).__name__, desc), case=tag + ' | ' + variant)
+                    continue
+                acc.transitions += 1
+                sig = set()
+                okk = True
+                for r in rs:
+                    nums = [n for mm in r.products for n in mm]
+                    if len(nums) != len(set(nums)):
+                        acc.fail('duplicate atom numbers among the products of a reaction :: %s' % desc, case=tag + ' | ' + variant, got=str(r))
+                        okk = False
+                        break
+                    prods = list(r.products)
+                    if variant == 'with spectator':
+                        sp = [mm for mm in prods if format(mm, 'h') == format(smiles('CCCCCC'), 'h')]
+                        if not sp:
+                            acc.fail('spectator molecule changed or lost :: %s' % desc, case=tag + ' | ' + variant, got=str(r))
+                            okk = False
+                            break
+                        prods.remove(sp[0])
+                    pa, pb = _plain_of(prods)
+                    sig.add(_norm_str(pa, pb))
+                if okk and sig != ref:
+                    acc.fail('product set depends on reactant order, numbering or a spectator :: %s' % desc, case=tag + ' | ' + variant, got=sorted(sig)[:3], expected=sorted(ref)[:3])
+            acc.outcomes[(desc, bool(ref))] += 1
+        if not fired[ri]:
+            acc.info['prepared reactor never fired on the building-block pool'] = acc.info.get('prepared reactor never fired on the building-block pool', []) + [desc]
+    # the collection wrapper: one_shot call without alerts == union of its reactors (as sets of reaction strings)
+    if kind == 'fwd':
+        pairs = list(itertools.product(pool[::3], pool[1::3])) if tier == 'quick' else list(itertools.product(pool, pool))
+        for a, b in pairs:
+            acc.states += 1
+            try:
+                ms = [smiles(a), smiles(b)]
+                got = {str(r) for r in itertools.islice(pr(*[m.copy() for m in ms], check_alerts=False), 100)}
+                exp = set()
+                for rx in reactors:
+                    exp |= {str(r) for r in itertools.islice(rx(*[m.copy() for m in ms]), 100)}
+                gota = {str(r) for r in itertools.islice(pr(*[m.copy() for m in ms]), 100)}
+            except Exception as e:
+                acc.fail('prepared reactor raised %s :: reactions.%s' % (type(e).__name__, name), case='%s + %s' % (a, b))
+                continue
+            acc.transitions += 1
+            if got != exp:
+                acc.fail('prepared collection differs from the union of its reactors :: reactions.%s' % name, case='%s + %s' % (a, b), got=sorted(got)[:3], expected=sorted(exp)[:3])
+            if not gota <= got:
+                acc.fail('alert filtering adds reactions :: reactions.%s' % name, case='%s + %s' % (a, b))
+            acc.outcomes[('wrapper', bool(got), bool(gota))] += 1
+    else:
+        for s in pool:
+            acc.states += 1
+            try:
+                got = {str(r) for r in itertools.islice(pr(smiles(s)), 100)}
+                exp = set()
+                for rx in reactors:
+                    exp |= {str(r) for r in itertools.islice(rx(smiles(s)), 100)}
+            except Exception as e:
+                acc.fail('prepared reactor raised %s :: retro.%s' % (type(e).__name__, name), case=s)
+                continue
+            acc.transitions += 1
+            if got != exp:
+                acc.fail('prepared collection differs from the union of its reactors :: retro.%s' % name, case=s, got=sorted(got)[:3], expected=sorted(exp)[:3])
+            acc.outcomes[('wrapper', bool(got))] += 1
+    acc.sample({'collection': name, 'reactors': len(reactors), 'fired': dict(fired)})
+    return acc
+
+
+def run_reactor_model(shard):
+    """the synthetic multi-reactant reactions against the edit model (one_shot, with and without the automorphism filter)"""
+    from chython import smiles, smarts, Reactor
+    acc = Acc()
+    for pats, prods, desc in REACTIONS:
+        for af in (True, False):
+            rx = Reactor(tuple(smarts(x) for x in pats), tuple(smarts(x) for x in prods), one_shot=True, automorphism_filter=af)
+            for (a, b) in RMOLS + [(y, x) for x, y in RMOLS]:
+                for spect in (None, 'CCCCCC'):
+                    acc.states += 1
+                    t = (a, b) + ((spect,) if spect else ())
+                    tag = '%s | %s | filter %s' % (desc, ' + '.join(t), af)
+                    ref = reactor_vs_model(rx, _disjoint(t), acc, tag, 'synthetic ' + desc)
+                    acc.outcomes[(desc, bool(ref))] += 1
+    return acc
+
+
+FWD_NAMES = ['amidation', 'amine_isocyanate', 'buchwald_hartwig', 'esterification', 'macmillan', 'reductive_amination', 'songashira', 'sulfonamidation', 'suzuki_miyaura']
+RETRO_NAMES = ['amidation', 'aryl_amination', 'mitsunobu', 'sonogashira', 'suzuki_miyaura']
+
+
 def plan(tier, seed):
     return [Stage('synthetic Transformer templates vs edit model', run_transformer, [(k, 18, tier) for k in range(18)], '%d templates (one per patcher branch) x %d molecules x 3 numberings x every match' % (len(TEMPLATES), len(MOLS))),
             Stage('multi-reactant Reactor', run_reactor, [(k, 4, tier) for k in range(4)], '4 reactions x 6 reactant pairs x spectators x all reactant orders x renumbering x one_shot on/off; colliding atom numbers'),
-            Stage('built-in deprotection templates', run_builtin, [(k, 16, tier) for k in range(16)], 'every deprotection group + apply_all x protected molecules x 2 numberings: unique numbers, valence validity, numbering independence')]
+            Stage('built-in deprotection templates', run_builtin, [(k, 16, tier) for k in range(16)], 'every deprotection group + apply_all x protected molecules x 2 numberings: unique numbers, valence validity, numbering independence'),
+            Stage('synthetic multi-reactant Reactor vs edit model', run_reactor_model, [0], '4 reactions x 12 ordered reactant pairs x spectator x automorphism filter: set of reactions = edit model over every combination of matches'),
+            Stage('prepared reaction collections vs edit model', run_prepared, [('fwd', n, tier) for n in FWD_NAMES] + [('retro', n, tier) for n in RETRO_NAMES],
+                  '9 forward + 5 retro collections (53 reactors) x every tuple of pool molecules matching the patterns: reactions = edit model over every combination of matches; '
+                  'colliding numbers / reversed order / spectator give the same set; collection call = union of its reactors')]
 
 
 def replay(rec):
     key = rec['key']
     case = rec.get('case', '')
-    if case.startswith('deprotection'):
+    if case.startswith('reactions.') or case.startswith('retro.') or rec.get('key', '').split(' :: ')[-1].split('[')[0].split('.')[0] in ('reactions', 'retro'):
+        d = key.split(' :: ')[-1]
+        kind = 'fwd' if d.startswith('reactions') else 'retro'
+        name = d.split('.')[1].split('[')[0]
+        accs = [run_prepared((kind, name, 'thorough'))]
+    elif 'synthetic ' in key:
+        accs = [run_reactor_model(0)]
+    elif case.startswith('deprotection'):
         accs = [run_builtin((k, 16, 'quick')) for k in range(16)]
     elif ' + ' in case:
         accs = [run_reactor((k, 4, 'quick')) for k in range(4)]
